@@ -202,12 +202,17 @@ Record knobs := {
   k_nodeid : bool;     (* --node-id item.id is passed (otherwise verification starts at the root) *)
   k_onesig : bool;     (* e81db11e (C02-F1): _is_the_only_signature_child — the element as received has exactly
                           one ds:Signature child and it is the first ds:Signature at/below the element *)
-  k_issuer : bool      (* 64feb908 (C02-F2): _assertion refuses a Response issuer that differs from the
+  k_issuer : bool;     (* 64feb908 (C02-F2): _assertion refuses a Response issuer that differs from the
                           assertion's issuer *)
+  k_iter : bool;       (* the one-signature test looks for the first ds:Signature among ALL descendants in
+                          document order (Element.iter); false = among the direct children only (find) *)
+  k_exact : bool       (* the Reference URI is compared with "#"+ID byte for byte; false = ignoring letter case *)
 }.
-Definition as_coded : knobs := {| k_uri := true; k_dup := true; k_nodeid := true; k_onesig := true; k_issuer := true |}.
+Definition as_coded : knobs :=
+  {| k_uri := true; k_dup := true; k_nodeid := true; k_onesig := true; k_issuer := true; k_iter := true; k_exact := true |}.
 (* before e81db11e and 64feb908 *)
-Definition knobs_v0 : knobs := {| k_uri := true; k_dup := true; k_nodeid := true; k_onesig := false; k_issuer := false |}.
+Definition knobs_v0 : knobs :=
+  {| k_uri := true; k_dup := true; k_nodeid := true; k_onesig := false; k_issuer := false; k_iter := true; k_exact := true |}.
 
 (* ------------------------------------------------------------------ xmlsec1 --verify (stand-in) *)
 Record nodename := { nn_q : string; nn_l : string }.   (* "saml:Assertion" / un-namespaced "Assertion" *)
@@ -433,7 +438,9 @@ Section Crypto.
                     let valid_n := count_in TRANSFORM_ENVELOPED algos + count_in TRANSFORM_C14N algos
                                    + count_in TRANSFORM_C14N_WC algos in
                     startswith uri "#" && Nat.ltb 1 (String.length uri)
-                    && (negb (k_uri K) || String.eqb uri ("#" ++ id_str item)%string)
+                    && (negb (k_uri K)
+                        || (if k_exact K then String.eqb uri ("#" ++ id_str item)%string
+                            else String.eqb (lower (drop1 uri)) (lower (id_str item))))
                     && opt_mem (attr "Algorithm" cm) ALLOWED_CANONICALIZATIONS
                     && Nat.leb 1 n && Nat.leb n 2
                     && Nat.eqb n valid_n
@@ -456,6 +463,10 @@ Section Crypto.
     | _, _ => false
     end.
 
+  Definition one_sig_k (K : knobs) (item : tree) : bool :=
+    if k_iter K then one_sig item
+    else match many SIGNATURE item with [_] => true | _ => false end.
+
   Definition issuer_text (item : tree) : string :=
     match single ISSUER item with Some i => strip (text i) | None => "" end.
 
@@ -476,7 +487,7 @@ Section Crypto.
     let certs := md_certs c iss in
     if negb schema_ok then None
     else if negb (validators K item) then None
-    else if k_onesig K && negb (one_sig item) then None
+    else if k_onesig K && negb (one_sig_k K item) then None
     else
       let nid := match attr "ID" item with
                  | Some i => if is_empty i then None else Some i      (* if node_id: *)
